@@ -1000,6 +1000,13 @@ class SymTok:
   def __repr__(self):
     return f'SymTok({self.z})'
 
+  def __str__(self):
+    # code that turns a token into text (json.dumps(default=str), f-strings,
+    # str()) sees the text of its concrete value: fork over the values
+    if Engine.current is None:
+      return repr(self)
+    return str(self.concrete())
+
 
 def ite_bool(c, a, b):
   return mkbool(z3.If(_zb(c), _zb(a), _zb(b)))
